@@ -1398,8 +1398,9 @@ class WcParse(Generic[AnyStr]):
                     (''.join(content).replace('(?#)', '?:') if self.capture else ''.join(content)) +
                     (_EXCLA_GROUP_CLOSE.format(str(current[index])))
                 )
+                # Only the placeholders found in this list are closed; others are still pending in a parent list.
+                self.inv_ext -= 1
             index -= 1
-        self.inv_ext = 0
 
     def parse_extend(self, c: str, i: util.StringIter, current: list[str], reset_dot: bool = False) -> bool:
         """Parse extended pattern lists."""
